@@ -1,0 +1,44 @@
+//go:build verif
+
+// Contracts for the gowp verifier (/verif). Comment-only file: compiled only with -tags verif and
+// contributes no code either way.
+
+package chancloser
+
+//@ spec func accRange(l int, r int) bool = ite(l < r, r <= l + tdiv(l*3, 10), r >= l - tdiv(l*3, 10))
+//@ spec func ratchet(f int, up bool) int = ite(up, f + tdiv(f, 10), f - tdiv(f, 10))
+//@ spec func compromise(ideal int, last int, remote int) int =
+//@      ite(ideal == remote || last == 0, ideal,
+//@      ite(remote == last, last,
+//@      ite(accRange(last, remote), remote, ratchet(last, remote > last))))
+//@
+//@ func feeInAcceptableRange
+//@   props C17
+//@   requires 0 <= localFee && localFee <= 2100000000000000 && 0 <= remoteFee && remoteFee <= 2100000000000000
+//@   ensures  result == accRange(localFee, remoteFee)
+//@   nowrap
+//@   modifies nothing
+//@   replay scalar
+//@
+//@ func ratchetFee
+//@   props C17
+//@   requires 0 <= fee && fee <= 2100000000000000
+//@   ensures  result == ratchet(fee, up)
+//@   ensures  up ==> result >= fee
+//@   ensures  !up ==> result <= fee && result >= 0
+//@   nowrap
+//@   modifies nothing
+//@   replay scalar
+//@
+//@ func calcCompromiseFee
+//@   props C17
+//@   requires 0 <= ourIdealFee && ourIdealFee <= 2100000000000000
+//@   requires 0 <= lastSentFee && lastSentFee <= 2100000000000000
+//@   requires 0 <= remoteFee && remoteFee <= 2100000000000000
+//@   ensures  result == compromise(ourIdealFee, lastSentFee, remoteFee)
+//@   ensures  lastSentFee >= 10 && ourIdealFee != remoteFee && remoteFee > lastSentFee ==> lastSentFee < result && result <= remoteFee
+//@   ensures  lastSentFee >= 10 && ourIdealFee != remoteFee && remoteFee < lastSentFee ==> remoteFee <= result && result < lastSentFee
+//@   ensures  result == ourIdealFee || result == lastSentFee || result == remoteFee || result == ratchet(lastSentFee, true) || result == ratchet(lastSentFee, false)
+//@   nowrap
+//@   modifies nothing
+//@   replay scalar
